@@ -80,6 +80,7 @@ class FakeIO:
         self.connect_fut = None
         self.hung_reads = 0
         self.partial = False
+        self.lost_partial = False
 
     def connected(self):
         self.tid = self.rig.next_tid
@@ -165,6 +166,10 @@ class VLoop(asyncio.SelectorEventLoop):
 
     async def sock_recv_into(self, io, view):
         rig = io.rig
+        if io.lost_partial and not io.closed:
+            # ... and the transport is read again: what follows is read from the middle of a message
+            io.lost_partial = False
+            rig.log.append(['dropped', io.tid, rig.fsm()])
         while True:
             if io.closed:
                 # a read pending on (or started on) a socket that was closed locally never completes:
@@ -207,7 +212,7 @@ class VLoop(asyncio.SelectorEventLoop):
             except asyncio.CancelledError:
                 if io.partial and not io.closed:
                     # the read is given up while it holds part of a message: those octets are gone
-                    rig.log.append(['dropped', io.tid, rig.fsm()])
+                    io.lost_partial = True
                 raise
 
     async def sock_sendall(self, io, data):
@@ -327,6 +332,9 @@ class Rig:
         self.loop = VLoop()
         asyncio.set_event_loop(self.loop)
         self._patch()
+        from exabgp.rib import RIB
+
+        RIB._cache.clear()  # the RIBs are shared by neighbor name process-wide: every script starts from a fresh one
         self.configuration = Configuration([conf], text=True)
         if not self.configuration.reload():
             raise RuntimeError(f'rig configuration rejected: {self.configuration.error}')
@@ -457,7 +465,9 @@ class Rig:
         async def _send_operational_messages(peer):
             # first call of the send phase of a main-loop iteration: the stimulus "the loop has something
             # to send" (queued ROUTE-REFRESH, pending routes) is logged before the sends
-            if peer.proto is not None and (peer.neighbor.refresh or peer.neighbor.rib.outgoing.pending()):
+            if peer.proto is None:
+                rig.ev('LoopExit')  # remove/shutdown took the proto away: the loop dies here (assert), _reset()
+            elif peer.neighbor.refresh or peer.neighbor.rib.outgoing.pending():
                 rig.ev('Tick')
             return await real_send_phase(peer)
 
